@@ -89,7 +89,7 @@ PROPS = {
         "modules": ["PgBifrost.Props.C06"],
         "components": ["partitioner", "crc", "batcher", "plumbing"],
         "required_theorems": ["PgBifrost.Props.C06.partition_switch_as_in_source", "PgBifrost.Props.C06.kinesis_factory_as_modelled",
-                              "PgBifrost.Props.C06.bucket_in_range", "PgBifrost.Props.C06.kinesis_key_choice"],
+                              "PgBifrost.Props.C06.decimal_injective", "PgBifrost.Props.C06.bucket_key_same_bucket", "PgBifrost.Props.C06.bucket_in_range", "PgBifrost.Props.C06.kinesis_key_choice"],
         "assumptions": ["identifiers are byte strings; bucket count >= 1 (validated by main.go)"],
     },
     "C07": {
